@@ -24,6 +24,13 @@ from .strategies import Profile, tree_labels, tree_strategy
 PROFILE = Profile("c16", long_lengths=(126, 127, 128, 129), max_array=2)
 
 
+
+def _float_sign_differs(a, b) -> bool:
+    """0.0 == -0.0 in Python, but they are different defaults on the wire."""
+    import math
+
+    return isinstance(a, float) and isinstance(b, float) and a == b and math.copysign(1.0, a) != math.copysign(1.0, b)
+
 def zero_like(v) -> bool:
     return v in (0, 0.0, "", b"", (), None, False, datetime.timedelta(0)) or (hasattr(v, "value") and v.value == 0)
 
@@ -137,7 +144,7 @@ def check_module(ctx: Ctx, defn: dict, mod: S.XModule, seed: int, n_trees: int) 
 
                     eff = g.default if has else get_tagged_field_default(g)
                     want = expected_default(ctx, mod, pymod, x)
-                    if not py_equal(eff, want) and not (eff == want and not isinstance(want, bool)):
+                    if _float_sign_differs(eff, want) or (not py_equal(eff, want) and not (eff == want and not isinstance(want, bool))):
                         ctx.fail(f"tagged-default:{x.kind}{',array' if x.array else ''}{',ignorable' if x.default_known and not x.has_explicit_default else ''}",
                                  f"{fid}: effective default {eff!r}, definition implies {want!r}", defname)
                 except Exception as e:
@@ -146,7 +153,7 @@ def check_module(ctx: Ctx, defn: dict, mod: S.XModule, seed: int, n_trees: int) 
                 want = expected_default(ctx, mod, pymod, x)
                 if not has:
                     ctx.fail("explicit-default-dropped", f"{fid}: definition default {want!r} but the field has none", defname)
-                elif not (py_equal(g.default, want) or (g.default == want and not isinstance(want, bool) and not isinstance(g.default, bool))):
+                elif _float_sign_differs(g.default, want) or not (py_equal(g.default, want) or (g.default == want and not isinstance(want, bool) and not isinstance(g.default, bool))):
                     ctx.fail(f"explicit-default-value:{x.kind}", f"{fid}: default {g.default!r}, definition says {want!r}", defname)
             elif has and not zero_like(g.default):
                 ctx.fail("invented-default", f"{fid}: default {g.default!r} but the definition states none", defname)
